@@ -70,19 +70,29 @@ func q(b []byte) string { return fmt.Sprintf("%q", string(b)) }
 // genWords draws a word set shaped to share prefixes and suffixes.
 func genWords(r *driver.Run) []string {
 	t := r.T
-	alpha := []int{1, 2, 3, 4, 26, 256}[t.Draw(6)]
+	alpha := []int{1, 2, 3, 4, 26, 256, 10, 5}[t.Draw(8)]
 	letter := func() byte {
 		switch alpha {
 		case 256:
 			return byte(t.Draw(256))
 		case 26:
 			return byte('a' + t.Draw(26))
+		case 10: // digits (labels that read like numbers in any textual signature)
+			return byte('0' + t.Draw(10))
+		case 5: // digits and separators
+			return []byte{'0', '1', '2', ',', ':'}[t.Draw(5)]
 		default:
 			return []byte{'a', 'b', 0x00, 0xff}[t.Draw(alpha)]
 		}
 	}
+	long := t.Chance(1, 10) // long words with long shared prefixes
+	lmul := 1
+	if long {
+		lmul = 8
+		r.Probe("long-words")
+	}
 	word := func(max int) string {
-		l := t.Draw(max + 1)
+		l := t.Draw(max*lmul + 1)
 		b := make([]byte, l)
 		for i := range b {
 			b[i] = letter()
@@ -100,6 +110,9 @@ func genWords(r *driver.Run) []string {
 	}
 	set := map[string]bool{}
 	k := t.Draw(25)
+	if t.Chance(1, 5) {
+		k = 20 + t.Draw(70) // mid-size sets
+	}
 	if t.Chance(1, 12) {
 		k = 60 + t.Draw(240) // occasionally a large set: long registers, wide nodes
 		r.Probe("large-word-set")
@@ -371,10 +384,10 @@ func main() {
 		Property: "C12",
 		Engine:   "dawg-build",
 		Level:    "exploration",
-		Rule: "a case is one seeded build history: a word set (<= 25 draws over alphabets of 1, 2, 3, 4, 26 or 256 letters incl. 0x00/0xFF, shaped from shared prefix and suffix pools, words that are prefixes of others, optionally the empty word as nil or []byte{}) added through New, a zero Builder, Initialise, or a re-initialised Builder, with rejected additions (duplicate, earlier word, proper prefix) interleaved at a per-run rate and optionally one reused argument buffer. " +
+		Rule: "a case is one seeded build history: a word set (<= 25 draws over alphabets of 1, 2, 3, 4, 26 or 256 letters incl. 0x00/0xFF, digits, digits+separators, shaped from shared prefix and suffix pools, words that are prefixes of others, optionally the empty word as nil or []byte{}) added through New, a zero Builder, Initialise, or a re-initialised Builder, with rejected additions (duplicate, earlier word, proper prefix) interleaved at a per-run rate and optionally one reused argument buffer. " +
 			"Every Add's error must match the model; after Finish: NumberOfWords, Lookup of every member, every proper prefix, one-byte substitutions and extensions and tape strings, the node count against an independently computed minimal DFA, and the enumerated language of the automaton. Non-trivial = at least 3 accepted words and at least one shared suffix state (fewer nodes than the trie); distinct = distinct fingerprints of the observed lookups and node counts.",
 		Assumptions: []string{
-			"words are at most 8 bytes; sets have at most 25 words (one run in 12: 60-300 draws)",
+			"words are at most 8 bytes (one run in 10: up to 64 bytes with long shared prefixes); sets have at most 25 words (one run in 5: 20-90, one in 12: 60-300 draws)",
 			"the automaton is read through the verif-tagged accessor dawg.VerifNodes (add-only file in /repo, build tag verif)",
 			"no schedule or I/O exists in this code: the simulator contributes seeded histories with rejected operations, the lock-step model, minimisation and replay",
 		},
